@@ -92,7 +92,7 @@ func vhArgOp() Operator {
 }
 
 // vhAnyCount is the size of the catalogue of awkward values (C08 part b).
-const vhAnyCount = 35
+const vhAnyCount = 38
 
 // vhAnyValue returns entry k of the catalogue.
 // vhSpecial, when set, replaces catalogue entry 3 (an initialised Stack): it
@@ -180,14 +180,20 @@ func vhAnyValue(k int) any {
 	case 29:
 		return &vhAliasCond{}
 	case 30:
-		return "stdout"
+		return []string{}
 	case 31:
-		return 1
+		return []string{"a", "b", "c"}
 	case 32:
-		return LogLevel(4)
+		return []*int{nil}
 	case 33:
-		return []any{"CONDITION", "mk", Eq, "mv"}
+		return "stdout"
 	case 34:
+		return 1
+	case 35:
+		return LogLevel(4)
+	case 36:
+		return []any{"CONDITION", "mk", Eq, "mv"}
+	case 37:
 		return []any{"OR", "m1", "m2"}
 	}
 	return nil
@@ -400,6 +406,7 @@ func vhResultSame(a, b any) bool {
 func vhResetGlobals() {
 	vhAnyLimit, vhVarMax, vhIntCap, vhTruthyWhenZero, vhSymOpBudget = 0, 2, 0, false, 0
 	vhSpecial = nil
+	vhC05Opts, vhC05Opt, vhC05Sym = false, 0, ""
 	vhNewRun()
 	sLogDefault, cLogDefault = devNull, devNull
 	sLogLevelDefault, cLogLevelDefault = NoLogLevels, NoLogLevels
